@@ -9,7 +9,11 @@ CHECKS = {'C01': {'level': 'exploration',
                  'final state is non-empty and the history has >=1 of {row in block>=1, offset reused after delete, >=2 writes to one row+column in '
                  'one txn, descending offsets in one txn, late column written}; distinct = hash of the full action trace | parallel part '
                  '(TestC01Parallel): the writers of 2..4 DIFFERENT blocks commit fresh enum strings, strings, ints and records on their own rows at '
-                 'the same time; at quiescence every row must read back exactly what its owner committed last (schedule-independent oracle)',
+                 'the same time; at quiescence every row must read back exactly what its owner committed last (schedule-independent oracle) | added '
+                 'later: histories contain rolled-back transactions between the committed ones, row callbacks may end with a nested read-only '
+                 'QueryAt of another row (moves the transaction cursor), bulk deletes also run [With/Without(name);] DeleteAll, and one history in '
+                 'eight STARTS on a collection whose Restore from a truncated multi-block snapshot failed (the model starts from whatever Restore '
+                 'left behind)',
          'assumptions': ["values are in the documented domain (strings <= 65535 bytes; SetAny/SetMany values have the column's Go type)",
                          'writes target rows that are live when issued (writes to dead offsets are outside the property)',
                          'histories are bounded: <= 3 blocks (offsets < 49152), ~30 actions, <= 12 steps per transaction'],
@@ -37,7 +41,10 @@ CHECKS = {'C01': {'level': 'exploration',
                  'commutative and order-sensitive merges, owned deletes, inserts; sparse and dense layouts, capacities 1/1024/16385) run with REAL '
                  'parallelism on all cores (common start barrier, pseudo-random processor yields at the hook points, also inside a block commit); '
                  'the same oracles are evaluated at quiescence from the recorded stream (record order of one block = apply order because the logger '
-                 'is called under the block latch); failures are reported with program and stream and are not bit-reproducible',
+                 'is called under the block latch); failures are reported with program and stream and are not bit-reproducible | added later: '
+                 '[With/Without(name);] DeleteAll transactions, first rolled back on the primary only, then committed on primary and twin; nested '
+                 'read-only QueryAt at the end of row callbacks; one history in eight starts (primary and twin alike) after a failed Restore of a '
+                 'truncated multi-block snapshot',
          'assumptions': ['in-flight observation happens from the same goroutine between two steps of the body (no latch is held there)',
                          'generator exclusions driven by known findings are counted in coverage.excluded_by_known_finding'],
          'tests': [{'run': '^TestC02$',
@@ -265,7 +272,9 @@ CHECKS = {'C01': {'level': 'exploration',
                  'writers and 2..10 readers hammer the same rows for a fixed time. Oracle, evaluated INSIDE one read callback and independent of '
                  'timing: presence of a, b, c is all-or-none and, when present, a + b == 0 and c == a. non-trivial = mode 1: the writer was parked '
                  'mid-commit (>=1 apply step done, latch held) while readers ran; mode 2: a reader observed >=3 distinct committed versions of one '
-                 'row; distinct = the generated case',
+                 'row; distinct = the generated case | added later: on keyed collections the readers also use QueryKey and the existing-key branch '
+                 'of UpsertKey (point reads by key) in both modes; in the free-parallel mode a worker panic or workers that do not come back within '
+                 '30 s are reported',
          'assumptions': ["mode 1 decides by the invariant, never by timing: a slow machine can only make a reader count as 'blocked' (weaker), not "
                          'produce an alarm',
                          'rows whose three columns are all absent are not judged (deleted after the reader selected them, or an in-flight '
@@ -299,7 +308,13 @@ CHECKS = {'C01': {'level': 'exploration',
                  '1/1024/16385) run with REAL parallelism on all cores (common start barrier, pseudo-random processor yields at the hook points, '
                  'also inside a block commit); the same oracles are evaluated at quiescence from the recorded stream (record order of one block = '
                  'apply order because the logger is called under the block latch); failures are reported with program and stream and are not '
-                 'bit-reproducible',
+                 'bit-reproducible | latched insert probe (TestC11Latched): a commit that deletes one row of a dense collection (64/128/192/16448 '
+                 'rows: the tail word is full, so the allocator hands out the lowest free offset) is parked at a commit:mid-apply point - offset '
+                 'already released, values not yet cleared, write latch held - while a second goroutine inserts; the insert callback must see a row '
+                 'holding nothing (on the real code it waits for the latch), the new row ends up with exactly what its insert stored, Count is '
+                 'unchanged; non-trivial = the insert was handed the freed offset while the commit was parked | stream follower: at the end of every '
+                 'sequential history a second collection replays the recorded change stream and must equal the model as well (re-used offsets carry '
+                 'no stale data there either)',
          'assumptions': ['free-parallel runs are not bit-reproducible: the replay re-runs the generated program (schedule left to the Go runtime)'],
          'tests': [{'run': '^TestC11$',
                     'checks': {'quick': 200, 'thorough': 2000},
@@ -320,7 +335,11 @@ CHECKS = {'C01': {'level': 'exploration',
                     'shards': {'quick': 1, 'thorough': 3},
                     'env': {'VERIF_PROP': 'C11'},
                     'timeout': {'quick': 900, 'thorough': 3400},
-                    'shrinktime': '5s'}]},
+                    'shrinktime': '5s'},
+                   {'run': '^TestC11Latched$',
+                    'checks': {'quick': 300, 'thorough': 3000},
+                    'shards': {'quick': 1, 'thorough': 2},
+                    'timeout': {'quick': 900, 'thorough': 3400}}]},
  'C12': {'level': 'exploration',
          'rule': 'model-based stateful histories on keyed schemas: transactions of 1..8 steps over InsertKey/UpsertKey/QueryKey/DeleteKey/SetKey '
                  'with keys from a 6-key alphabet (forcing repeats, incl. the empty key), mixed with updates/deletes by offset, rollbacks, failing '
@@ -336,7 +355,8 @@ CHECKS = {'C01': {'level': 'exploration',
                  'exactly that row holds it, Count == visible rows | interleaved part (TestC12Interleaved): a second stream B commits InsertKey '
                  "operations for fresh keys INSIDE the body of transaction A between A's steps (deterministic stand-in for a concurrent writer; B "
                  'never deletes, so f26 and f17 are not touched); every step is judged against the committed table at issue time and the final state '
-                 'against the reference map',
+                 'against the reference map | added later: row callbacks of InsertKey/UpsertKey/QueryKey may end with a nested read-only QueryAt of '
+                 'another row on the same transaction (the transaction cursor moves before the call returns)',
          'assumptions': ['existence is judged against the committed table when the operation is issued (documented mechanism)',
                          'the key column is written only through InsertKey/UpsertKey/SetKey (SetAny on the key column bypasses the duplicate test '
                          'and is outside the property)'],
@@ -397,7 +417,10 @@ CHECKS = {'C01': {'level': 'exploration',
                  'model. Oracle: writer recorded a failure <=> Snapshot returned non-nil; after every call the set of /proc/self/fd entries pointing '
                  'at column_*.log and the column_*.log files in the private TMPDIR are unchanged; transactions keep matching the model; the healthy '
                  'snapshot restores to the model state. non-trivial = a plan whose writer failed after >=1 successful write/byte, directly followed '
-                 'by a successful restore comparison; distinct = (collection, plan)',
+                 'by a successful restore comparison; distinct = (collection, plan) | added later: in one snapshot call out of four a SECOND '
+                 'Snapshot call is issued at a drawn yield point of the one in progress (from the snapshotting goroutine itself): it may be refused '
+                 'or succeed, must leave no temp file or descriptor behind, and when it returns nil its output must restore to the row count of that '
+                 'moment',
          'assumptions': ['fault positions are enumerated per collection as described; which collections are tried is random (rapid)',
                          'descriptor/file leaks are counted by name pattern column_*.log so unrelated runtime descriptors cannot alarm'],
          'tests': [{'run': '^TestC14$',
@@ -475,7 +498,11 @@ CHECKS = {'C01': {'level': 'exploration',
                  'sample and at the end - every row whose deadline is absent, zero or more than 1 s in the future is present; liveness (bounded) - '
                  'every row whose deadline passed is gone within max(50 intervals, 10 s); rows within 1 s of their deadline are not judged; '
                  'Row.TTL() of long/extended rows is within 2 s of the deadline. non-trivial = the case has both a row that expired and was removed '
-                 'and a surviving row observed over >= 12 cleanup intervals; distinct = the generated case',
+                 'and a surviving row observed over >= 12 cleanup intervals; distinct = the generated case | mode 3 (added later): a live stream '
+                 'follower with a cleanup interval of 1 h replays every commit the primary emits as it arrives; once the primary has removed every '
+                 'expired row (and again after rows without a TTL re-used their offsets) primary and follower must hold the same ids at the same '
+                 'offsets with bit-identical deadlines and equal Count: what the cleanup removes must reach the change stream. The sampling loop '
+                 'reads the clock BEFORE judging, so a deadline that passes during a pass cannot end the loop early',
          'assumptions': ['wall-clock property: margins (1 s safety guard band, 10 s liveness bound = >200x the expected latency) instead of a clock '
                          'hook; a run on a machine stalled for more than the margins would be inconclusive, never a violation of safety',
                          'timing is not reproducible bit-for-bit; the case (rows, TTLs, interval, mode) is'],
@@ -494,7 +521,11 @@ CHECKS = {'C01': {'level': 'exploration',
                  "de-duplicated; a pair is attributed to a listed finding when either side matches the finding's mutator pattern, any other pair is "
                  'a violation; a watchdog expiry is a violation. Serialized schedules explored by the cooperative scheduler in the C06/C08/C09/C15 '
                  'runs report a step that never completes as a hang in those runs. non-trivial = a program in which new blocks were added while '
-                 'readers ran AND >=1 snapshot and >=1 index build overlapped writers (measured with counters); distinct = the generated program',
+                 'readers ran AND >=1 snapshot and >=1 index build overlapped writers (measured with counters); distinct = the generated program | '
+                 'two further targeted workloads (not tied to a listed finding): block growth (17 000-row inserts) beside commits on existing blocks '
+                 'and snapshots; index build beside readers of that very index through the Go read paths (Row.Bool(index), txn.Bool(index).Get() in '
+                 'Range, WithValue(index)) - the assembly bitmap kernels behind With/Without/Union are invisible to the race detector; readers are '
+                 'gated so that they never name an unregistered index',
          'assumptions': ['the race detector only reports races that actually execute in the run',
                          "which listed finding a report belongs to is decided by the unsynchronised mutator's function name (known_findings.txt "
                          'race=<regex>)'],
@@ -519,11 +550,20 @@ CHECKS = {'C01': {'level': 'exploration',
                  'nothing after DropTrigger. non-trivial = a transaction with a merge followed by a later put on the same row, a row delete, or a '
                  'rollback while a trigger existed; distinct = hash of the trace | action armDropInsideCommit: the next call of trigger A (inside a '
                  "commit) drops trigger B of the same column; every OTHER trigger must still receive exactly its events (B's calls in that "
-                 'transaction are not judged)',
+                 'transaction are not judged) | added later: triggers on bool (store of false and row deletion are one operation there: judged by '
+                 'counts), enum and record columns; DeleteAll bulk deletes | parallel creation (TestC19Parallel): 2..8 goroutines create triggers '
+                 '(and indexes) at the same moment, 100..600 rounds per case; afterwards one committed store and one committed row deletion must '
+                 'reach every trigger exactly once with the stored value, every created trigger/index can be dropped, and nothing is called after '
+                 'its drop',
          'assumptions': ['bool columns are not watched (a false store is encoded as the delete op-code by design)',
                          'stores into a row that the same transaction also deletes are not judged (only its single delete call is)'],
          'tests': [{'run': '^TestC19$',
                     'checks': {'quick': 400, 'thorough': 4000},
                     'shards': {'quick': 1, 'thorough': 16},
                     'timeout': {'quick': 900, 'thorough': 3400},
-                    'env': {'GOMAXPROCS': 1}}]}}
+                    'env': {'GOMAXPROCS': 1}},
+                   {'run': '^TestC19Parallel$',
+                    'checks': {'quick': 40, 'thorough': 1500},
+                    'shards': {'quick': 1, 'thorough': 2},
+                    'timeout': {'quick': 900, 'thorough': 3400},
+                    'shrinktime': '5s'}]}}
